@@ -127,6 +127,9 @@ func Universe() []UVal {
 		{Name: "structptr", Go: &ds2, Small: true},
 		{Name: "nilstructptr", Go: nilPtr, Small: true},
 		{Name: "intptr", Go: &one}, {Name: "strptr", Go: &str},
+		{Name: "ptrslice", Go: []*int{&one, nil}, Small: true}, {Name: "anynilptr", Go: []any{(*int)(nil), 1, (*DataStruct)(nil)}},
+		{Name: "structptrs", Go: []*DataStruct{nil, &ds}}, {Name: "mapnilptr", Go: map[string]*int{"p": nil, "q": &one}},
+		{Name: "ptrptr", Go: func() **int { p := &one; return &p }()}, {Name: "nilslice", Go: []any(nil)},
 		{Name: "dropv", Go: DropV{[]any{1, "x"}}, Small: true},
 		{Name: "dropp", Go: &DropP{map[string]any{"k": DropV{7}}}},
 		{Name: "dropnil", Go: DropV{nil}},
